@@ -120,21 +120,28 @@ def start_mid_send_killer():
         f = f.f_back
 
     def run():
+        # Die while the main thread is blocked in the write of the message BODY: the pipe then holds the header (unless
+        # the parent has already taken it) and a first part of the body, which stay readable after the death, so the
+        # parent's recv() meets EOF in the MIDDLE of the message (OSError "got end of file during message"), not at a
+        # message boundary (EOFError).  The message (4 MB) is far larger than the pipe, so a pipe that is at least half
+        # full can only mean: body being written, writer blocked or about to block.
         if fd is None:
             time.sleep(0.05)
             os._exit(9)
+        try:
+            cap = fcntl.fcntl(fd, 1032)        # F_GETPIPE_SZ
+        except OSError:
+            cap = 65536
         buf = bytearray(4)
-        prev = 0
         t0 = time.time()
         while time.time() - t0 < 30:
             try:
                 fcntl.ioctl(fd, termios.FIONREAD, buf)
             except OSError:
                 break
-            q = struct.unpack('i', buf)[0]
-            if q < prev:
+            if struct.unpack('i', buf)[0] >= cap // 2:
                 os._exit(9)
-            prev = q
+            time.sleep(0)                      # hand the GIL to the main thread between its header and body writes
         os._exit(9)
     threading.Thread(target=run, daemon=True).start()
 
@@ -165,6 +172,7 @@ def make_callee(inv, idx):
         if inv.get('unp') and inv['pick']:
             extra = SC.ExplodesOnLoad()       # dumps() in the child works, loads() in the parent raises
         if inv['kill'] == 'mid_send':
+            sys.setswitchinterval(1e-4)
             start_mid_send_killer()
         if inv['out'] == 'die':
             if inv['die'] == 'os_exit':
